@@ -132,6 +132,10 @@ def same_config(a, b):
         if k in IDENTITY_ATTRS:
             if x is not y:
                 return False
+        elif isinstance(x, (int, bool)) or x is None:
+            # (checked before any hasattr(): attribute lookups on a symbolic int realise it)
+            if isinstance(y, Dataset) or x != y:
+                return False
         elif isinstance(x, Dataset):
             if not same_config(x, y):
                 return False
@@ -233,7 +237,7 @@ def body_copy(kind, flag, p0, p1):
 FAMILIES = [
     Family('seed', body_seed, ['pid', 'variant', 'backing', 'n', 'epochs'], RA + CA + GA,
            lambda tier, seed: [(p, v, b, n, (2 if tier == 'quick' else 3)) for p in PIPELINES for v in ('plain', 'copy', 'pf1', 'pfw') for b in ('list',) for n in (0, 2, 3)
-                               if not (p == 'cat' and n == 3 and tier == 'quick')],
+                               if not (p in ('cat', 'local', 'map_local_batch') and n == 3 and tier == 'quick')],
            timeout=dict(quick=90, thorough=900), desc='equally seeded twins agree epoch by epoch, also through copy() and prefetch, independent of the global generator'),
     Family('frozen', body_frozen, ['pid', 'backing', 'n'], RA + CA, lambda tier, seed: [(p, 'list', n) for p in PIPELINES for n in (0, 2, 3)], timeout=dict(quick=90, thorough=600),
            desc='one-time shuffle and copy(freeze=True) iterate in one fixed order; reshuffling datasets report unordered'),
